@@ -459,7 +459,7 @@ func (pw *PgWorld) applyStreamFaults(s *stream, conns []*SimConn) {
 			continue
 		}
 		switch f.Kind {
-		case "corrupt-payload", "tiny-length", "ones-field", "truncate-message":
+		case "corrupt-payload", "tiny-length", "ones-field", "truncate-message", "giant-length":
 			if s.name == "client->proxy-c" && pw.delivered[s.name] == 1 && !pw.mysql {
 				// the startup message has no type byte: its own length field is set to 4..8 (the protocol
 				// version stays) and the message is cut accordingly
@@ -474,6 +474,11 @@ func (pw *PgWorld) applyStreamFaults(s *stream, conns []*SimConn) {
 				tiny = int(f.Arg) % 4
 			} else if f.Kind == "ones-field" {
 				tiny = -2
+			} else if f.Kind == "giant-length" {
+				if pw.mysql {
+					continue // a MySQL packet cannot declare more than 16 MiB
+				}
+				tiny = -3
 			} else if f.Kind == "truncate-message" {
 				tiny = 100 + int(f.Arg>>20)%48
 			}
